@@ -134,6 +134,8 @@ def run(ctx):
     rep.rule("SRV-5", "in a read loop that accumulates into a buffer (`read(&mut buf[acc..])`) every test that ends "
                       "the loop by inspecting the buffer inspects the whole received prefix (range start 0, or the "
                       "pre-increment accumulator minus >= 3), so a terminator split over two reads is found", floor=1)
+    rep.rule("SRV-6", "the read counter of a connection is declared or reset inside the accept loop (no state leaks from "
+                      "one connection into the next)", floor=1)
     n_fns = 0
     accept_loops = 0
     for key, (u, h) in sorted(prog.hir.items()):
@@ -200,6 +202,7 @@ def run(ctx):
             for (R, parents) in reads:
                 check_read_loop(rep, key, L, R, parents, inner_ids)
                 check_prefix_scan(rep, key, L, R)
+                check_acc_reset(rep, key, body, loops, L, R)
         # ---------------- SRV-4
         if conns:
             check_srv4(rep, key, body, conns)
@@ -402,6 +405,60 @@ def _range_start(i):
 def json_s(n):
     import json
     return json.dumps(n)[:400]
+
+
+def check_acc_reset(rep, key, body, loops, L, R):
+    """SRV-6: per-connection read state does not leak into the next connection: the byte counter of an accumulating read
+    loop that sits inside an accept loop is declared (or unconditionally reset to 0) inside that accept loop, before the
+    read loop - on every iteration, whichever way the previous connection ended."""
+    e = hir.strip_wrappers(R["e"])
+    args = e.get("args", [])
+    if not args:
+        return
+    dest = hir.strip_wrappers(args[0])
+    if dest.get("k") != "index":
+        return
+    st = _range_start(dest["i"])
+    if st is None or st[0] != "expr" or st[1].get("k") != "path" or "id" not in st[1].get("res", {}):
+        return
+    aid, aname = st[1]["res"]["id"], st[1]["res"].get("local", "?")
+    # the accept loop around this read loop
+    A = None
+    for cand in loops:
+        if cand is L:
+            continue
+        inside = any(x is L for x in hir.walk(cand["body"], enter_closures=False))
+        if inside and any(is_accept_await(n) for (n, _) in direct_nodes(cand)):
+            A = cand
+    if A is None:
+        return
+    construct = "read counter `%s` per connection" % aname
+    declared_inside = any(x.get("k") == "let" and any(i == aid for _, i in hir.pat_bindings(x["pat"]))
+                          for x in hir.walk(A["body"], enter_closures=False))
+    if declared_inside:
+        rep.ok("SRV-6", key, construct, detail="declared inside the accept loop", where=hir.where(R))
+        return
+    # declared outside: an unconditional `acc = 0` among the statements of the accept loop body that precede the read loop
+    stmts = A["body"].get("stmts", [])
+    reset = False
+    for s_ in stmts:
+        if any(x is L for x in hir.walk(s_, enter_closures=False)) or s_ is L:
+            break
+        x = hir.strip_wrappers(s_) if isinstance(s_, dict) else {}
+        if x.get("k") in ("semi", "expr"):
+            x = hir.strip_wrappers(x.get("e", {}))
+        if x.get("k") == "assign":
+            l_ = hir.strip_wrappers(x.get("l", {}))
+            if l_.get("k") == "path" and l_.get("res", {}).get("id") == aid and hir.lit_int(x.get("r", {})) == 0:
+                reset = True
+    if reset:
+        rep.ok("SRV-6", key, construct, detail="reset at the top of every accept iteration", where=hir.where(R))
+    else:
+        rep.violation("SRV-6", key, construct,
+                      "the byte counter `%s` of the request read loop lives outside the accept loop and is not reset at the "
+                      "start of every connection: after a connection that ended early (closed, reset, over-long request) the "
+                      "next client's request is appended to stale bytes or read into an already-full buffer, and is never "
+                      "answered" % aname, where=hir.where(R))
 
 
 def check_prefix_scan(rep, key, L, R):
